@@ -162,13 +162,118 @@ pub fn run_c06(rep: &Report) -> i32 {
     rep.sample(J::obj().set("placement", J::s("4k3/8/8/8/8/8/8/4K2R")).set("asked", J::s("is_check(White), is_check(Black) vs rules::attacked(king square, enemy)")));
     rep.sample(J::obj().set("placement", J::s("8/8/8/3k4/3K4/8/8/8 (adjacent kings: both in check by the rules of movement)")));
     rep.assume("rules::attacked (forward generation from each enemy piece) is right; boards are built directly with the king cache as the FEN loader sets it");
+    // the same question on the boards the engine's own three producers build (their king cache, not ours):
+    // S1 reach graph and the castling family through generator, text applier and FEN loader
+    let r = crate::e1_posgraph::run(rep, crate::e1_posgraph::Focus::for_property("C06"));
+    rep.add("producer_pass_states", r.states);
     rep.finish(
-        states.load(Ordering::Relaxed),
-        calls.load(Ordering::Relaxed),
+        states.load(Ordering::Relaxed) + r.states,
+        calls.load(Ordering::Relaxed) + r.transitions,
         validated,
         true,
-        &format!("all placements of both kings (any two distinct squares, adjacent included) with 0..={} further pieces of any of the 10 types on any squares, not filtered by legality; is_check asked for both colours; placements with a pawn on rank 1/8 are enumerated but reported as observations only", extra),
+        &format!("all placements of both kings (any two distinct squares, adjacent included) with 0..={} further pieces of any of the 10 types on any squares, not filtered by legality; is_check asked for both colours; placements with a pawn on rank 1/8 are enumerated but reported as observations only; plus is_check for both colours on every board the generator, the text-move applier and the FEN loader build along the S1 reach graph and the castling family", extra),
     )
+}
+
+// ================================================================================================ C05 (sensitivity part)
+
+/// "Changing any single component of a position changes the key": (1) the 781 addressable constants are
+/// non-zero and pairwise distinct (a single change XORs one or two of them in); (2) on sample positions every
+/// single mutation (each square to each other content, side, each right, each en-passant file) changes the
+/// key the FEN loader computes, and that key equals the scratch key of the mutated position.
+pub fn c05_sensitivity(rep: &Report) -> (u64, u64) {
+    let h = ZobristHasher::create_zobrist_hasher();
+    let mut constants: Vec<(String, u64)> = Vec::new();
+    for &p in ALL12.iter() {
+        for sq in 0..64u8 {
+            constants.push((format!("{} on {}", rules::piece_char(p), rules::sq_name(sq)), h.get_val_for_piece(engine_piece(p), point_of_sq(sq))));
+        }
+    }
+    constants.push(("black to move".into(), h.get_black_to_move_val()));
+    use crate::move_generation::CastlingType;
+    constants.push(("right K".into(), h.get_val_for_castling(CastlingType::WhiteKingSide)));
+    constants.push(("right Q".into(), h.get_val_for_castling(CastlingType::WhiteQueenSide)));
+    constants.push(("right k".into(), h.get_val_for_castling(CastlingType::BlackKingSide)));
+    constants.push(("right q".into(), h.get_val_for_castling(CastlingType::BlackQueenSide)));
+    for file in 0..8usize {
+        constants.push((format!("en-passant file {}", (b'a' + file as u8) as char), h.get_val_for_en_passant(file + 2)));
+    }
+    let mut sorted: Vec<(u64, &String)> = constants.iter().map(|(n, v)| (*v, n)).collect();
+    sorted.sort();
+    for (v, n) in &sorted {
+        if *v == 0 {
+            rep.fail("C05", "zero-constant", format!("the hash constant for '{}' is zero: that component never changes the key", n), J::obj().set("kind", J::s("c05-constant")).set("component", J::s(n)));
+        }
+    }
+    for w in sorted.windows(2) {
+        if w[0].0 == w[1].0 {
+            rep.fail("C05", "equal-constants", format!("the hash constants for '{}' and '{}' are equal: swapping one for the other leaves the key unchanged", w[0].1, w[1].1), J::obj().set("kind", J::s("c05-constant")).set("component", J::s(w[0].1)).set("other", J::s(w[1].1)));
+        }
+    }
+    // (2) single mutations through the FEN loader
+    let samples = [
+        "rnbqkbnr/pppppppp/8/8/8/8/PPPPPPPP/RNBQKBNR w KQkq - 0 1",
+        "r3k2r/p1ppqpb1/bn2pnp1/3PN3/1p2P3/2N2Q1p/PPPBBPPP/R3K2R w KQkq - 0 1",
+        "4k3/8/8/3pP3/8/8/8/4K3 w - d6 0 1",
+        "8/8/8/8/8/8/8/8 b - - 0 1",
+        "r3k2r/8/8/8/3Pp3/8/8/R3K2R b KQkq d3 0 1",
+    ];
+    let mut mutations = 0u64;
+    for f in samples {
+        let base = Pos::from_fen(f).unwrap();
+        let base_key = match BoardState::from_fen(&base.fen()) {
+            Ok(b) => b.zobrist_key,
+            Err(_) => continue,
+        };
+        let mut check = |m: &Pos, what: String| {
+            mutations += 1;
+            match catch_unwind(AssertUnwindSafe(|| BoardState::from_fen(&m.fen()).map(|b| b.zobrist_key).map_err(|e| e.to_string()))) {
+                Ok(Ok(k)) => {
+                    if k == base_key {
+                        rep.fail("C05", "single-change-leaves-key-unchanged", format!("{}: {} leaves the key at {}", base.fen(), what, k), J::obj().set("kind", J::s("c05-mutation")).set("fen", J::s(&base.fen())).set("mutated_fen", J::s(&m.fen())));
+                    }
+                    if k != scratch_key(m, &h) {
+                        rep.fail("C05", "fen-loader-key", format!("from_fen({}) key {} != scratch key", m.fen(), k), J::obj().set("kind", J::s("c05-mutation")).set("mutated_fen", J::s(&m.fen())));
+                    }
+                }
+                _ => {}
+            }
+        };
+        for sq in 0..64u8 {
+            for content in std::iter::once(rules::EMPTY).chain(ALL12.iter().cloned()) {
+                if content != base.b[sq as usize] {
+                    let mut m = base;
+                    m.b[sq as usize] = content;
+                    check(&m, format!("{} becomes '{}'", rules::sq_name(sq), if content == 0 { '.' } else { rules::piece_char(content) }));
+                }
+            }
+        }
+        let mut m = base;
+        m.stm ^= 1;
+        check(&m, "side to move flipped".into());
+        for bit in [rules::WK, rules::WQ, rules::BK, rules::BQ] {
+            let mut m = base;
+            m.rights ^= bit;
+            check(&m, format!("castling right bit {} flipped", bit));
+        }
+        for file in 0..8i8 {
+            let rank = if base.stm == rules::WHITE { 5 } else { 2 };
+            let e = rules::sq_at(file, rank);
+            if e != base.ep {
+                let mut m = base;
+                m.ep = e;
+                check(&m, format!("en-passant target set to {}", rules::sq_name(e.unwrap())));
+            }
+        }
+        if base.ep.is_some() {
+            let mut m = base;
+            m.ep = None;
+            check(&m, "en-passant target removed".into());
+        }
+    }
+    rep.add("hash_constants_checked_nonzero_and_distinct", constants.len() as u64);
+    rep.add("single_component_mutations_through_the_fen_loader", mutations);
+    (constants.len() as u64 + mutations, mutations)
 }
 
 // ================================================================================================ C14
@@ -745,6 +850,15 @@ pub fn run_c15(rep: &Report, cli: Option<&dyn Fn(&[String], &Report) -> u64>) ->
                         }
                     }
                     7 => {
+                        // placement rows over the characters that count squares (digits, piece letters): longer strings
+                        let row_alphabet = ["1", "7", "8", "9", "K", "p"];
+                        for st in strings_up_to(&row_alphabet, if quick { 5 } else { 6 }) {
+                            for row in [0usize, 3, 7] {
+                                let mut rows: Vec<String> = valid.iter().map(|x| x.to_string()).collect();
+                                rows[row] = st.clone();
+                                try_one(&format!("{} w - - 0 1", rows.join("/")), &format!("placement row {} replaced", row));
+                            }
+                        }
                         // placement: every string as one row, at each of the 8 row positions
                         for st in &strings {
                             for row in 0..8 {
